@@ -488,6 +488,10 @@ def judge(ck, cases, stream, res=None, malformed_ok=False):
         if ",c," in c["real"]:
             ck.count(f"packing_{stream}_graphs_with_created_avgpool")
         res.nontrivial.add(hash(c["body"]))
+        if not getattr(res, "sampled_" + stream, False) and multi:
+            setattr(res, "sampled_" + stream, True)
+            ck.sample({"pass_packing": stream, "origin": c.get("origin"), "operators": c["ops"], "real_passes": c["real"][:400],
+                       "lean_spec_verdict": sp, "model_equals_real": m == "ok " + c["real"]}, limit=8)
         bad_clauses = [k for k in ("a", "b", "c") if f.get(k) != "1"]
         if sp.startswith("err"):
             ck.violation(f"pass packing: the Spec request was not understood: {sp} ({where})", rp, found_input=False)
